@@ -39,7 +39,26 @@ class HierarchyFilter(Filter):
 
     @property
     def parent_changed(self):
-        return hashobj(self._parent_rtdc_ds.filter.all) != self._parent_hash
+        return self._get_parent_hash() != self._parent_hash
+
+    def _get_parent_hash(self):
+        """Hash of the filters of all hierarchy parents up to the root
+
+        The events of a hierarchy child are defined by the filters of all
+        of its ancestors. If only the filter of the direct parent was
+        considered, then a change further up in the hierarchy that results
+        in an identical boolean filter array of the parent (but different
+        underlying events) would go unnoticed.
+        """
+        hashes = []
+        ds = self._parent_rtdc_ds
+        while True:
+            hashes.append(hashobj(ds.filter.all))
+            if ds.format == "hierarchy":
+                ds = ds.hparent
+            else:
+                break
+        return hashobj(hashes)
 
     def apply_manual_indices(self, rtdc_ds, manual_indices):
         """Write to `self.manual`
@@ -137,4 +156,4 @@ class HierarchyFilter(Filter):
         # hold reference to rtdc_ds parent
         # (not to its filter, because that is reinstantiated)
         self._parent_rtdc_ds = parent_rtdc_ds
-        self._parent_hash = hashobj(self._parent_rtdc_ds.filter.all)
+        self._parent_hash = self._get_parent_hash()
